@@ -241,6 +241,10 @@ def check_colourful(case):
                 if tuple(rect) != (0, 0, t, t):
                     devs.append(Dev('C11/svg-background', 'rectangle %s' % ([float(x) for x in rect],)))
                 col = svg_color_rgba(fill, False)
+                if pos != 0 and col[3] != 0:
+                    # painter's model: a page-filling rectangle hides every stroke written before it
+                    devs.append(Dev('C11/svg-background-order', 'the background rectangle is element %d of the picture: the %d stroke path(s) before it are painted over'
+                                    % (pos, d['order'][:pos].count('path'))))
                 beneath = tuple(col[:3]) + (int(round(float(col[3]) * 255)),)
                 for r in range(t):
                     for c in range(t):
@@ -296,6 +300,13 @@ def iter_cases(tier):
                     if ci == 1 and (border not in (None, 0) or scale > 1):
                         continue
                     cases.append({'what': 'iter', 'sym': sym, 'scale': scale, 'border': border, 'label_version': True})
+    # quiet zone as wide as / wider than the symbol
+    for v in list(R.MICRO) + [1, 2, 7]:
+        n = R.size_of(v)
+        sym = {'content': enc_content('1'), 'kw': {'version': v, 'mask': 1}}
+        for border in (n - 1, n, n + 1, 2 * n + 3):
+            for scale in (1, 2):
+                cases.append({'what': 'iter', 'sym': sym, 'scale': scale, 'border': border})
     # float scales are truncated
     sym = {'content': enc_content('1'), 'kw': {'version': 2, 'mask': 0}}
     for scale in (1.5, 2.9, 3.0):
@@ -353,9 +364,12 @@ def option_grid():
                             opts = {opt: 'black' if opt.endswith('_dark') or opt == 'dark_module' else 'WHITE', 'light': '#fff', 'dark': '#000000'}
                         if border is not None:
                             opts['border'] = border
-                        opts['scale'] = 1 if si != 1 else 1
+                        opts['scale'] = 1
                         if (si + variant) % 2 and kind != 'ppm':
                             opts['scale'] = 2
+                        if kind == 'svg' and border is None and variant < 2:
+                            # the same picture with shorter path elements (no class attribute)
+                            cases.append({'what': 'colourful', 'sym': sym, 'kind': kind, 'opts': dict(opts, lineclass=None)})
                         cases.append({'what': 'colourful', 'sym': sym, 'kind': kind, 'opts': opts})
     return cases
 
@@ -396,6 +410,11 @@ def colourful_cases(draw):
     sc = min(cap, draw(st.sampled_from([1, 1, 2, 3, 4])))
     if kind == 'svg':
         sc = draw(st.sampled_from([1, 2, 1.5, 0.5, 3]))
+        # options which change the text of the document (and thereby e.g. the length of a path element), not the picture
+        for name, vals in (('lineclass', [None, '', 'a-rather-long-class-name another-one']), ('svgclass', [None, 'x']), ('nl', [False]),
+                           ('xmldecl', [False]), ('svgns', [False]), ('omitsize', [True])):
+            if draw(st.integers(0, 5)) == 0:
+                opts[name] = draw(st.sampled_from(vals))
     opts['scale'] = sc
     b = draw(st.sampled_from([None, 0, 1, 4]))
     if b is not None:
